@@ -38,7 +38,26 @@ from tools.vlib.repoenv import VERIF
 IMPORTS = ("From Coq Require Import ZArith List Bool.\n"
            "From IPV8V Require Import lib.PyErr lib.Bytes model.M16_lits model.M16_tokentree model.M17_consent.\n"
            "Import ListNotations.\nOpen Scope Z_scope.\n")
+IMPORTS_GEN = IMPORTS.replace("model.M17_consent.", "model.M17_consent model.M17_run_gen.")
 CORPUS = os.path.join(VERIF, "corpus", "C17")
+
+
+def translate(ctx):
+    """stage G: the consent functions translated from the AST (gen/G17_consent.v); returns the generated text or
+    None (reported as broken; the stale file is removed so that nothing is proved or evaluated against it)"""
+    from tools.tr import tr_consent
+    try:
+        text = tr_consent.write()
+        ctx.extra.setdefault("generated", {})["gen/G17_consent.v"] = len(text)
+        return text
+    except Exception as e:   # noqa: BLE001  tr_expr.Unsupported or anything else: fail closed
+        ctx.broke("translator tr_consent aborted", e)
+        for ext in (".v", ".vo", ".vos", ".vok", ".glob"):
+            try:
+                os.remove(tr_consent.DEST[:-2] + ext)
+            except OSError:
+                pass
+        return None
 BASE = 1700000000.0
 NPEERS = 4
 SIG = 64
@@ -71,9 +90,9 @@ class Intern:
     """injective renaming of real byte strings to short codes, one name space per sort.  Codes of different
     sorts of the same width start with different bytes, so that concatenations of codes (token plaintext =
     digest+digest, metadata plaintext = digest+json, ...) are renamed injectively as well."""
-    WIDTH = {"H": 2, "S": 2, "K": 1, "J": 2, "V": 1, "H20": 3}
-    BASE = {"H": 0, "S": 64 * 256, "J": 128 * 256, "K": 0, "V": 0, "H20": 0}
-    ROOM = {"H": 64 * 256, "S": 64 * 256, "J": 64 * 256, "K": 256, "V": 256, "H20": 256 ** 3}
+    WIDTH = {"H": 2, "S": 2, "K": 1, "J": 2, "V": 1, "H20": 20}
+    BASE = {"H": 0, "S": 64 * 256, "J": 128 * 256, "K": 0, "V": 0, "H20": int.from_bytes(bytes([250] * 18 + [0, 0]), "big")}
+    ROOM = {"H": 64 * 256, "S": 64 * 256, "J": 64 * 256, "K": 256, "V": 256, "H20": 256 ** 2}
 
     def __init__(self):
         self.t = {}
@@ -81,11 +100,20 @@ class Intern:
     def get(self, sort, b) -> tuple:
         d = self.t.setdefault(sort, {})
         if b not in d:
-            d[b] = len(d) + 1
-        i = d[b]
-        if i >= self.ROOM[sort]:
-            raise RuntimeError("renaming overflow")
-        return tuple((self.BASE[sort] + i).to_bytes(self.WIDTH[sort], "big"))
+            i = len(d) + 1
+            if i >= self.ROOM[sort]:
+                raise RuntimeError("renaming overflow")
+            d[b] = tuple((self.BASE[sort] + i).to_bytes(self.WIDTH[sort], "big"))
+        return d[b]
+
+    def force(self, sort, b, code):
+        """give b the code `code` (a 20-byte hash keeps its length and its padded form is the real prefix followed
+        by that code, so that the translated pad_hash and the renaming agree)"""
+        d = self.t.setdefault(sort, {})
+        if d.get(b, tuple(code)) != tuple(code):
+            raise RuntimeError("renaming conflict")
+        d[b] = tuple(code)
+        return d[b]
 
 
 def canon(v):
@@ -230,6 +258,9 @@ class World:
         self.expected = []     # Coq terms of eobs
         for k in self.keys:
             self.reg_key(k)
+        for i in range(100, 104):        # the 20-byte attribute hashes scripts may use: fix their codes up front
+            hb = attr_hash(i)
+            self.I.force("H", pad20(hb), tuple(b"SHA-1\x00\x00\x00\x00\x00\x00\x00") + self.I.get("H20", hb))
         # oracle side (script level and raw packets only)
         self.regs = {}         # padded attribute hash -> (name, time, key, metadata)
         self.presented = {i: {"tok": {}, "md": {}} for i in range(NPEERS + 1)}   # by authenticated sender
@@ -598,7 +629,7 @@ class World:
         self.regs[pad20(hb)] = (name, self.clock, kb, md)
         if len(hb) == 20:
             code = self.I.get("H20", hb)
-            self.ntbl[code] = self.H(pad20(hb))
+            self.ntbl[code] = self.I.force("H", pad20(hb), tuple(b"SHA-1\x00\x00\x00\x00\x00\x00\x00") + code)
         else:
             code = self.H(hb)
         self.finish_event("EKnown %s %s %s %s" % (zl(code), zl(self.V(name)), zl(self.K(kb)), self.mdterm(md)),
@@ -629,7 +660,7 @@ class World:
             jb = b"{}"
         if len(hb) == 20:
             code = self.I.get("H20", hb)
-            self.ntbl[code] = self.H(pad20(hb))
+            self.ntbl[code] = self.I.force("H", pad20(hb), tuple(b"SHA-1\x00\x00\x00\x00\x00\x00\x00") + code)
         else:
             code = self.H(hb)
         self.finish_event("EAdvertise %s %s %s %s" % ("None" if p is None else "(Some %s)" % zl(self.K(self.keys[p])),
@@ -1183,8 +1214,16 @@ def run(ctx):
             if res[5]:
                 ctx.broke("corpus case %s could not be run" % path, res[5])
             ctx.count(("corpus", path, cj["label"]))
-    # ---- stage P
+    # ---- stage P, stage G + refinement of the translated functions to the hand model
     ctx.proofs()
+    gtext = translate(ctx)
+    gen_ok = False
+    if gtext is not None:
+        ctx.proofs(part="C17x")
+        ok_, log_, _cmd, _dt = coqrun.make(["model/M17_run_gen.vo"], timeout=600)
+        gen_ok = ok_
+        if not ok_:
+            ctx.broke("the generated definitions no longer fit the evaluation interface model/M17_run_gen.v", log_[-1500:])
     ctx.coverage["trusted_base"] = [
         "Coq 8.16.1 kernel (vm_compute)",
         "hypotheses on the primitives: none for sign_requires_consent / store_only_valid_attestation / "
@@ -1195,6 +1234,13 @@ def run(ctx):
         "message is authenticated by the node's own key (C01)",
         "json.loads (metadata documents enter the model parsed), SQLite reads (tables modelled as lists with their "
         "primary keys), C01 (peer = authenticated key), C02/C03 (payload decoding)",
+        "translated part (tools/tr/tr_consent.py -> gen/G17_consent.v, refinement props/C17x.v): regenerated from the "
+        "AST of identity/community.py, manager.py, database.py (incl. the SQL texts and PRIMARY KEYs), metadata.py, "
+        "attestation.py, signed_object.py on every run; outside it, as runtime parameters: SHA3-256, signature check and "
+        "signing, json.loads/json.dumps, time(), the token tree (C16/C16x), _fit_disclosure / disclose_credentials, the "
+        "byte decoding of payload areas (the decoding statements of substantiate's loops are recognised and replaced by "
+        "iteration over decoded items), PseudonymManager.__init__ on a key without stored tokens; set iteration is "
+        "modelled in first-occurrence order",
         "this harness: independent wire decoding, renaming of digests/signatures/keys, tables of SHA3-256 and "
         "signature validity computed with hashlib / ECCrypto, patched clock",
     ]
@@ -1252,14 +1298,22 @@ def run(ctx):
                   "(public_key, authority_key, metadata_pointer)" % sorted(pks),
                   "with the narrow key the node's own attestation is dropped when another authority attested first")
     # ---- model in Coq
-    mism, errors = coqrun.eval_mismatches(IMPORTS, "run_case", "obs_eqb", [(cc, exp) for _, cc, exp in coq_cases],
+    imports, runfn = (IMPORTS_GEN, "run_case_both") if gen_ok else (IMPORTS, "run_case")
+    ctx.extra["model_evaluated"] = "hand model + generated definitions" if gen_ok else "hand model only"
+    mism, errors = coqrun.eval_mismatches(imports, runfn, "obs_eqb", [(cc, exp) for _, cc, exp in coq_cases],
                                           os.path.join(ctx.scratch, "corr"), ctype="case * list eobs", shard=40,
                                           max_bytes=250000)
     for e in errors:
         ctx.broke("correspondence: Coq evaluation failed", e)
     for m in mism[:10]:
         c = cases[coq_cases[m][0]]
-        ctx.broke("correspondence: model and implementation differ on %s" % c["label"], json.dumps(c["ops"]))
+        what = "correspondence: model and implementation differ on %s" % c["label"]
+        if gen_ok and m == mism[0]:
+            out = coqrun.eval_terms(imports, ["obs_eqb (run_case %s) (run_case_g %s)" % (coq_cases[m][1], coq_cases[m][1])],
+                                    os.path.join(ctx.scratch, "dbg"))
+            if "= false" in out:
+                what = "correspondence: the GENERATED definitions differ from the hand model on %s" % c["label"]
+        ctx.broke(what, json.dumps(c["ops"]))
     ctx.coverage["traces_validated_against_impl"] += len(coq_cases) - len(mism)
     ctx.coverage["rule"] = ("every history (user operations + authenticated datagrams from honest and dishonest peers) is "
                             "run on a real IdentityCommunity node and through the Coq model; outputs, exception class, "
